@@ -11,7 +11,7 @@
    [check_refines] on every generated namespace only. *)
 From Coq Require Import String Ascii List Bool Arith NArith.
 Import ListNotations.
-Require Import V.Lib.PyStr V.Dsl.Model V.Dsl.Proofs V.Dsl.Spec V.Dsl.Refine.
+Require Import V.Lib.PyStr V.Dsl.Model V.Dsl.Proofs V.Dsl.Spec V.Dsl.Refine V.Dsl.Load.
 Open Scope list_scope.
 
 (* the (stage, name) pairs given to ANY list of component scopes are pairwise distinct *)
@@ -252,3 +252,73 @@ Proof.
   split; [|vm_compute; split; reflexivity].
   left. exists ("a", []). split; [left; reflexivity|]. vm_compute. exact I.
 Qed.
+
+(* ------------------------------------------------------------------ entry points and value kinds (Load.v) *)
+
+(* REJECTION through every entry point - namespace_to_flowir with or without override_entrypoint_args, and
+   DSLExperimentConfiguration with or without variable files, validate True or False: whenever the answer is an
+   error it lists at least one location *)
+Theorem C06_load_err_nonempty : forall v N uv e, load v N uv = Err e -> e <> [].
+Proof. exact load_err_nonempty. Qed.
+Print Assumptions C06_load_err_nonempty.
+
+Theorem C06_override_err_nonempty : forall N ov e, compile_ov N ov = Err e -> e <> [].
+Proof. exact compile_ov_err_nonempty. Qed.
+Print Assumptions C06_override_err_nonempty.
+
+(* a document whose entrypoint is missing or empty is rejected with a location by the loader in every mode *)
+Theorem C06_load_no_entrypoint : forall v uv, exists e, load v None uv = Err e /\ e <> [].
+Proof. exact load_no_entrypoint. Qed.
+Print Assumptions C06_load_no_entrypoint.
+
+(* and so is an entrypoint that names no template *)
+Theorem C06_load_unknown_entry : forall v N uv,
+  get_template N (n_entry N) = None -> exists e, load v (Some N) uv = Err e /\ e <> [].
+Proof. exact load_unknown_entry. Qed.
+Print Assumptions C06_load_unknown_entry.
+
+(* without variable files the loader is the compiler: every theorem above about [compile] speaks about it *)
+Theorem C06_load_no_files : forall v N, load v (Some N) NoFiles = compile N.
+Proof. exact load_no_files. Qed.
+Print Assumptions C06_load_no_files.
+
+(* PARAMETER BINDING at the entry point: with variable files the namespace is compiled with every user variable as
+   the argument of the entry instance, and the arguments of the entrypoint otherwise *)
+Theorem C06_load_files_binding : forall v N g t,
+  get_template N (n_entry N) = Some t ->
+  exists ea, load v (Some N) (Files (Some g)) = compile (with_eargs N ea) /\
+             forall k, lookup k ea = match lookup k g with Some x => Some x | None => lookup k (n_eargs N) end.
+Proof. exact load_files_binding. Qed.
+Print Assumptions C06_load_files_binding.
+
+(* override_entrypoint_args wins over entrypoint.execute[0].args, name by name *)
+Theorem C06_override_binding : forall (A : Type) k (eargs ov : list (string * A)),
+  lookup k (update eargs ov) = match lookup k ov with Some v => Some v | None => lookup k eargs end.
+Proof. exact update_lookup. Qed.
+Print Assumptions C06_override_binding.
+
+(* ACCEPTED BY THE VALIDATOR (its rule for variables): whatever the kinds of the values of the entry instance's
+   parameters - declared defaults, entrypoint arguments, override - every global variable the compiler records is a
+   string or a number, and the recorded ones are exactly the parameters that are neither null nor a dictionary *)
+Theorem C06_globals_accepted : forall params eargs ov,
+  forallb (fun nv => var_ok (fst (snd nv))) (globals (entry_kargs params eargs ov)) = true.
+Proof. intros. apply globals_ok. Qed.
+Print Assumptions C06_globals_accepted.
+
+Theorem C06_globals_exact : forall ka n k v,
+  In (n, (k, v)) (globals ka) <-> In (n, (k, v)) ka /\ k <> KNone /\ k <> KDict.
+Proof. exact globals_spec. Qed.
+Print Assumptions C06_globals_exact.
+
+(* non-vacuity: a dictionary default, a null default and a number argument on the entry template; the user variable
+   wins over the entrypoint argument; a namespace without entrypoint *)
+Example C06_load_example :
+  globals (entry_kargs [("env", Some (KDict, [Lit "{}"])); ("s", Some (KNone, [Lit "None"])); ("n", None)]
+                       [("n", (KNum, [Lit "0"]))] (Some [("n", (KNum, [Lit "7"]))]))
+  = [("n", (KNum, [Lit "7"]))]
+  /\ load true (Some ex_ns) NoFiles = compile ex_ns
+  /\ load true (Some ex_ns) (Files (Some [("zz", [Lit "1"])])) = Err [[LS "entrypoint"; LS "execute"; LN 0]]
+  /\ load true None (Files None) = Err [[LS "entrypoint"; LS "entry-instance"]]
+  /\ load false None (Files None) = Err [[LS "entrypoint"]]
+  /\ load true (Some ex_bad) (Files (Some [])) = Err [[LS "workflows"; LN 0; LS "execute"; LN 0]].
+Proof. vm_compute. repeat split; reflexivity. Qed.
